@@ -98,8 +98,15 @@ def classify(target_expr, fn, cls, fresh, depth=0):
         am = alias_map(fn)
         if r in am and isinstance(target_expr, (ast.Name, ast.Attribute, ast.Subscript, ast.Call)):
             return classify(am[r], fn, cls, fresh, depth + 1)
-    if r == "self" and cls == "Rule":
-        return "rule"
+    if r == "self" and cls is not None and cls != "Node":
+        # state of a non-tree object of the package (the per-call Rule object, a private cursor / matcher helper ...): only a
+        # direct field of it - `self.x`, `self.x[i]` - counts; `self.x.y = ...` could reach a node held in a field
+        e = target_expr
+        while isinstance(e, ast.Subscript):
+            e = e.value
+        if isinstance(e, ast.Name) or (isinstance(e, ast.Attribute) and isinstance(e.value, ast.Name)):
+            return "rule"
+        return "tree"
     if r in CALLER_LISTS:
         return "caller"
     return "tree"
@@ -167,34 +174,52 @@ def module_level_refs(tree):
     return out
 
 
+EXCLUDED_MODULES = {"eml/harness.py", "eml/rules.py"}      # development harness and the legacy rule declarations: not imported by the library
+
+
 def inventory(repo):
     src = os.path.join(repo, "src", "metapype")
     mods, modrefs = {}, {}
-    for rel in ENTRY:
-        with open(os.path.join(src, rel), encoding="utf-8") as f:
-            tr = ast.parse(f.read())
-        mods[rel] = functions_of(tr)
-        modrefs[rel] = module_level_refs(tr)
-    # name-based closure inside the listed modules
+    for root_dir, _, files in os.walk(src):
+        for fn in sorted(files):
+            if not fn.endswith(".py"):
+                continue
+            rel = os.path.relpath(os.path.join(root_dir, fn), src).replace(os.sep, "/")
+            if rel in EXCLUDED_MODULES:
+                continue
+            try:
+                with open(os.path.join(root_dir, fn), encoding="utf-8") as f:
+                    tr = ast.parse(f.read())
+            except SyntaxError:
+                continue
+            mods[rel] = functions_of(tr)
+            modrefs[rel] = module_level_refs(tr)
+    # name-based closure over the whole package (code may be moved between modules and re-exported)
     index = {}
     for rel, fns in mods.items():
         for q in fns:
             index.setdefault(q.split(".")[-1], []).append((rel, q))
-    todo = [(rel, q) for rel, qs in ENTRY.items() for q in qs]
-    # functions reached through module-level tables (the dispatch dict `evaluate.rules`, tables of method names, ...)
-    for rel, refs in modrefs.items():
-        for nm in refs:
-            if nm in MUTATORS:
-                continue
-            todo += [tgt for tgt in index.get(nm, []) if tgt[0] == rel]
-    seen = set()
+    todo = []
+    for rel, qs in ENTRY.items():
+        for q in qs:
+            if rel in mods and q in mods[rel]:
+                todo.append((rel, q))
+            else:
+                # a public entry point that now lives in another module and is re-exported: same qualified name, any module
+                todo += [tgt for tgt in index.get(q.split(".")[-1], []) if tgt[1] == q and not q.startswith("_")]
+    seen, seen_mods = set(), set()
     while todo:
         rel, q = todo.pop()
-        if (rel, q) in seen or q not in mods[rel]:
+        if (rel, q) in seen or q not in mods.get(rel, {}):
             continue
         seen.add((rel, q))
         fn, cls = mods[rel][q]
-        for nm in called_names(fn):
+        names = set(called_names(fn))
+        if rel not in seen_mods:
+            # functions reached through this module's tables (dispatch dicts, tables of method names, ...)
+            seen_mods.add(rel)
+            names |= modrefs[rel]
+        for nm in names:
             if nm in MUTATORS:
                 continue            # a mutator call is a write site of the caller, not read-only code to descend into
             for tgt in index.get(nm, []):
